@@ -70,6 +70,17 @@ def twinOf (j : Json) (h : Heap) : Json :=
   | some (_, t) => Json.bool (decide (t = h))
   | none => Json.null
 
+/-- what the layout contains (for the distribution printed into the evidence) -/
+def features (h : Heap) : List String :=
+  (if h.vals.toList.any (fun v => !v.pex.isEmpty) then ["has.parameter_or_header_examples"] else []) ++
+  (if h.vals.toList.any (fun v => !v.dmap.isEmpty) then ["has.discriminator_mapping"] else []) ++
+  (if h.vals.toList.any (fun v => v.content.any (fun m => m.enc.any (fun e => !e.isEmpty))) then ["has.encoding_headers"] else []) ++
+  (if h.pis.toList.any (fun p => !p.ref.isEmpty) then ["has.path_item_ref"] else []) ++
+  (if h.pis.toList.any (fun p => KinModel.RefName.isPrefix "#/paths/".toList p.ref) then ["has.path_item_ref_into_paths"] else []) ++
+  (if h.cells.toList.any (fun c => c.val < 0) then ["has.nil_value_cell"] else []) ++
+  (if h.vals.toList.any (fun v => !v.items.isEmpty) then ["has.callback"] else []) ++
+  (if (h.root.map (fun r => KinModel.RefName.isPrefix ['/'] r)).getD false then ["root.absolute"] else ["root.relative"])
+
 def strsOf (l : List (List Char)) : Json := jstrs (l.map String.ofList)
 
 /-- request: {root, files, heap}; only `heap` is read by the model -/
@@ -99,7 +110,7 @@ def handle (j : Json) : Json :=
                       ("cyclic", Json.bool (InlinedCycle h s)), ("twin", twinOf j h)]),
       ("spec", jobj [("ok", Json.bool true)]),
       ("excl", jstrs excl),
-      ("branches", jstrs (s.flags ++ (if ok then [] else ["spec.fails"])))]
+      ("branches", jstrs (s.flags ++ (if ok then [] else ["spec.fails"]) ++ (if s.flags.isEmpty then [] else features h)))]
   | .panic site =>
     jobj [("model", jobj [("outcome", Json.str "panic"), ("site", Json.str site), ("specok", Json.bool false)]),
           ("spec", jobj [("ok", Json.bool true)]),
